@@ -60,6 +60,8 @@ pub struct LifeWorld {
     /// [owner][pool]
     pub wallets: [[Wallet; 2]; 2],
     pub trader: Wallet,
+    /// a third party with its own token accounts on the main pool: approved as one-token delegate by the Approve op
+    pub delegate: Wallet,
     pub reward_mint: Pubkey,
     pub reward_vault: Pubkey,
     pub reward_auth: Pubkey,
@@ -121,6 +123,7 @@ pub fn build_world(label: &str) -> (Ledger, LifeWorld) {
     let wb_ = mk(&mut l, "ownerB");
     let owners = [wa_[0].owner, wb_[0].owner];
     let trader = world::create_wallet(&mut l, &format!("{lab}/trader"), &main, 1 << 60, 1 << 60);
+    let delegate = world::create_wallet(&mut l, &format!("{lab}/delegate"), &main, 1 << 60, 1 << 60);
     // background liquidity so that swaps move the price only a little and fees are shared
     let bgw = world::create_wallet(&mut l, &format!("{lab}/bg"), &main, 1 << 60, 1 << 60);
     let bg = world::pos_ref(&main, &format!("{lab}/bg"), bgw.owner, -2816, 2816, false);
@@ -160,6 +163,7 @@ pub fn build_world(label: &str) -> (Ledger, LifeWorld) {
         owners,
         wallets: [wa_, wb_],
         trader,
+        delegate,
         reward_mint,
         reward_vault,
         reward_auth,
@@ -375,6 +379,26 @@ pub fn ix_transfer_locked(w: &LifeWorld, pos: &PosRef, lock_cfg: Pubkey, destina
     )
 }
 
+/// the token program's Approve: the owner of the position token account makes `w.delegate` a one-token delegate
+pub fn ix_approve(w: &LifeWorld, pos: &PosRef) -> Instruction {
+    if pos.t22 {
+        spl_token_2022::instruction::approve(&T22, &pos.token_account, &w.delegate.owner, &pos.owner, &[], 1).unwrap()
+    } else {
+        spl_token::instruction::approve(&TOKEN, &pos.token_account, &w.delegate.owner, &pos.owner, &[], 1).unwrap()
+    }
+}
+
+/// reposition_liquidity_v2 signed by `authority` (who also pays / receives the token difference through `wallet`)
+pub fn ix_reposition_by(w: &LifeWorld, pos: &PosRef, wallet: &Wallet, new_lower: i32, new_upper: i32, liquidity: u128) -> Instruction {
+    let mut i = ix_reposition(w, pos, wallet, new_lower, new_upper, liquidity);
+    for m in i.accounts.iter_mut() {
+        if m.pubkey == pos.owner && m.is_signer {
+            m.pubkey = wallet.owner;
+        }
+    }
+    i
+}
+
 pub fn ix_reposition(w: &LifeWorld, pos: &PosRef, wallet: &Wallet, new_lower: i32, new_upper: i32, liquidity: u128) -> Instruction {
     let p = &pos.pool;
     world::ix(
@@ -458,6 +482,8 @@ pub struct TokenView {
     pub owner: Pubkey,
     pub amount: u64,
     pub frozen: bool,
+    /// (delegate, delegated amount)
+    pub delegate: Option<(Pubkey, u64)>,
 }
 
 pub fn token_view(l: &Ledger, k: &Pubkey) -> Result<Option<TokenView>, String> {
@@ -467,11 +493,11 @@ pub fn token_view(l: &Ledger, k: &Pubkey) -> Result<Option<TokenView>, String> {
     };
     let v = if a.owner == TOKEN {
         let t = spl_token::state::Account::unpack(&a.data).map_err(|e| format!("token account {k}: {e:?}"))?;
-        TokenView { mint: t.mint, owner: t.owner, amount: t.amount, frozen: t.state == spl_token::state::AccountState::Frozen }
+        TokenView { mint: t.mint, owner: t.owner, amount: t.amount, frozen: t.state == spl_token::state::AccountState::Frozen, delegate: Option::<Pubkey>::from(t.delegate).map(|d| (d, t.delegated_amount)) }
     } else if a.owner == T22 {
         use spl_token_2022::extension::StateWithExtensions;
         let t = StateWithExtensions::<spl_token_2022::state::Account>::unpack(&a.data).map_err(|e| format!("t22 token account {k}: {e:?}"))?;
-        TokenView { mint: t.base.mint, owner: t.base.owner, amount: t.base.amount, frozen: t.base.state == spl_token_2022::state::AccountState::Frozen }
+        TokenView { mint: t.base.mint, owner: t.base.owner, amount: t.base.amount, frozen: t.base.state == spl_token_2022::state::AccountState::Frozen, delegate: Option::<Pubkey>::from(t.base.delegate).map(|d| (d, t.base.delegated_amount)) }
     } else {
         return Err(format!("token account {k} is owned by {}", a.owner));
     };
